@@ -518,6 +518,8 @@ def validate_calls(report, batches, tag):
     r = run_tlc("Trace_LogCalls", cfg, env={"TRACE_FILE": path}, workers=16, tag=tag)
     os.unlink(path)
     n = sum(len(b["calls"]) for b in batches)
+    report.cov["states"] += r.distinct
+    report.cov["transitions"] += r.generated
     report.cov["tlc_runs"].append({"name": "Trace_LogCalls", "batches": len(batches), "calls": n,
                                    "distinct_states": r.distinct, "wall_s": round(r.wall, 1)})
     if r.ok:
